@@ -80,6 +80,7 @@ func init() {
 
 func runC32(c *Ctx) {
 	c32ExpectedVotes(c)
+	c32SubjectEquality(c)
 	// Verify: dispatch
 	if fn := c.Fn(strcT + ".Verify"); fn != nil {
 		e := NewE1(c, fn)
